@@ -20,6 +20,7 @@ pub const CONTRACT: &[&str] = &[
     "descriptor-creating calls return the lowest free descriptor; close(fd) frees it; a close of a descriptor that is not open returns -EBADF and is recorded",
     "clock_gettime(CLOCK_MONOTONIC) never decreases; tv_nsec in 0..10^9",
     "nanosleep either completes (returns 0) or is interrupted (-EINTR) after sleeping part of the request and then writes the exact remainder",
+    "mmap hands out up to 4 regions (512 bytes each) from static arenas and records (addr,len); munmap must name a live region exactly, anything else is recorded as a bad unmap",
     "anything not modelled returns an unconstrained value in raw mode and 0 in model mode",
 ];
 
@@ -74,15 +75,33 @@ pub struct K {
     pub sleep_bad_request: bool,
     pub sleep_done: bool,
     pub sleep_max_intr: u32,
+    // --- memory mappings (regions handed out of static arenas)
+    pub maps: [Map; NMAP],
+    pub n_maps: usize,
+    pub bad_unmap: u32,
     // --- process
     pub forked: bool,
     /// 0: fork outcome symbolic; 1: this path is the child; 2: this path is the parent
     pub fork_force: u8,
     pub waited: u32,
+    pub reaped: u32,
+    pub reap_status: i32,
     pub in_child: bool,
     pub exited: bool,
     pub exit_code: usize,
 }
+
+pub const NMAP: usize = 4;
+pub const ARENA_WORDS: usize = 64;
+#[derive(Clone, Copy)]
+pub struct Map {
+    pub addr: usize,
+    pub len: usize,
+    pub live: bool,
+}
+#[repr(C, align(64))]
+pub struct Arena(pub [u64; ARENA_WORDS]);
+pub static mut ARENAS: [Arena; NMAP] = [Arena([0; ARENA_WORDS]), Arena([0; ARENA_WORDS]), Arena([0; ARENA_WORDS]), Arena([0; ARENA_WORDS])];
 
 const CALL0: Call = Call { nr: 0, a: [0; 6], ret: 0, failed: false };
 
@@ -115,9 +134,14 @@ pub static mut KS: K = K {
     sleep_bad_request: false,
     sleep_done: false,
     sleep_max_intr: 3,
+    maps: [Map { addr: 0, len: 0, live: false }; NMAP],
+    n_maps: 0,
+    bad_unmap: 0,
     forked: false,
     fork_force: 0,
     waited: 0,
+    reaped: 0,
+    reap_status: 0,
     in_child: false,
     exited: false,
     exit_code: 0,
@@ -191,6 +215,41 @@ impl K {
             i += 1;
         }
         err(EMFILE)
+    }
+    /// mmap: the next arena, if the request fits; exact (addr,len) bookkeeping
+    pub fn mmap_alloc(&mut self, len: usize) -> usize {
+        if self.n_maps >= NMAP || len == 0 || len > ARENA_WORDS * 8 {
+            return err(12); // ENOMEM
+        }
+        let i = self.n_maps;
+        let addr = unsafe { core::ptr::addr_of_mut!(ARENAS[i]) as usize };
+        self.maps[i] = Map { addr, len, live: true };
+        self.n_maps += 1;
+        addr
+    }
+    /// munmap: must name a live mapping exactly
+    pub fn munmap(&mut self, addr: usize, len: usize) -> usize {
+        let mut i = 0;
+        while i < NMAP {
+            if self.maps[i].live && self.maps[i].addr == addr && self.maps[i].len == len {
+                self.maps[i].live = false;
+                return 0;
+            }
+            i += 1;
+        }
+        self.bad_unmap += 1;
+        err(22)
+    }
+    pub fn live_maps(&self) -> usize {
+        let mut c = 0;
+        let mut i = 0;
+        while i < NMAP {
+            if self.maps[i].live {
+                c += 1;
+            }
+            i += 1;
+        }
+        c
     }
     pub fn fd_is_open(&self, fd: usize) -> bool {
         fd < NFD && self.fd_open & (1 << fd) != 0
@@ -332,6 +391,8 @@ unsafe fn model(k: &mut K, n: usize, a: &[usize; 6]) -> usize {
             newfd
         }
         nr::CLOSE => k.close_fd(a[0]),
+        nr::MMAP => k.mmap_alloc(a[1]),
+        nr::MUNMAP => k.munmap(a[0], a[1]),
         nr::CLOCK_GETTIME => {
             // arbitrary non-decreasing instants
             let ds: i64 = kani::any();
@@ -408,11 +469,24 @@ unsafe fn model(k: &mut K, n: usize, a: &[usize; 6]) -> usize {
             0
         }
         nr::WAIT4 => {
+            k.waited += 1;
+            // WNOHANG (bit 0): the child may still be running -> 0, status untouched
+            if a[2] & 1 != 0 && k.reaped == 0 {
+                let still_running: bool = kani::any();
+                if still_running {
+                    return 0;
+                }
+            }
+            if k.reaped > 0 {
+                return err(10); // ECHILD: already reaped
+            }
+            let status: i32 = kani::any();
+            k.reaped += 1;
+            k.reap_status = status;
             let st = a[1] as *mut i32;
             if !st.is_null() {
-                *st = kani::any();
+                *st = status;
             }
-            k.waited += 1;
             if (a[0] as i32) > 0 { a[0] } else { 4242 }
         }
         nr::FORK | nr::VFORK => {
